@@ -72,7 +72,7 @@ Proof.
         -- rewrite expire_id by exact Hn.
            intros H. injection H as <- <-. split; [reflexivity|].
            right. right. right. repeat split; eauto.
-           cbn [docs with_docs]. rewrite store_del_app_none by exact Eg.
+           cbn [docs with_docs with_docs_w]. rewrite store_del_app_none by exact Eg.
            rewrite store_del_one. destruct (py_eq _ _); [left; apply app_nil_r|right; reflexivity].
     + destruct (patch i); try discriminate Em; intros H; injection H as <- <-;
         (split; [reflexivity|]); left; repeat split; eauto;
@@ -93,7 +93,7 @@ Proof.
       * rewrite expire_id by exact Hn.
         intros H. injection H as <- <-. split; [reflexivity|].
         right. right. right. repeat split; eauto.
-        cbn [docs with_docs]. change (docs c0) with (docs c).
+        cbn [docs with_docs with_docs_w]. change (docs c0) with (docs c).
         rewrite store_del_app_none by exact Eg.
         rewrite store_del_one. destruct (py_eq _ _); [left; apply app_nil_r|right; reflexivity].
 Qed.
@@ -145,7 +145,7 @@ Proof.
            { exists a, b. repeat split; auto. }
            assert (Hs0 : same_id_ok d d).
            { exists a, a. repeat split; auto. }
-           set (c1 := with_docs c (store_set k d' (docs c))).
+           set (c1 := with_docs_w c (store_set k d' (docs c))).
            assert (Hn1 : no_ttl (idx c1) = true) by exact Hn.
            destruct (ensure_uniques c1 d') as [touched|e] eqn:Eu.
            ++ rewrite expire_if_id by exact Hn1.
